@@ -855,6 +855,45 @@ func c12SE(rr *rand.Rand, depth int, wantVec bool) seNode {
 	}
 }
 
+// mirrors of Model/StaticFlow isVec / noVV / unlessSimple on the JSON form
+func seIsVec(j map[string]any) bool {
+	switch j["k"] {
+	case "num":
+		return false
+	case "neg":
+		return seIsVec(j["e"].(map[string]any))
+	case "bin":
+		return seIsVec(j["l"].(map[string]any)) || seIsVec(j["r"].(map[string]any))
+	}
+	return true
+}
+
+func seNoVV(j map[string]any) bool {
+	switch j["k"] {
+	case "bin":
+		l, r := j["l"].(map[string]any), j["r"].(map[string]any)
+		return !(seIsVec(l) && seIsVec(r)) && seNoVV(l) && seNoVV(r)
+	case "unlessOn":
+		return false
+	case "vector", "neg", "fn", "agg":
+		return seNoVV(j["e"].(map[string]any))
+	}
+	return true
+}
+
+func seUnlessSimple(j map[string]any) bool {
+	switch j["k"] {
+	case "unlessOn":
+		l, r := j["l"].(map[string]any), j["r"].(map[string]any)
+		return seNoVV(r) && seUnlessSimple(l) && seUnlessSimple(r)
+	case "bin":
+		return seUnlessSimple(j["l"].(map[string]any)) && seUnlessSimple(j["r"].(map[string]any))
+	case "vector", "neg", "fn", "agg":
+		return seUnlessSimple(j["e"].(map[string]any))
+	}
+	return true
+}
+
 func c12Static(r *hx.Run) {
 	e := c12SE(r.Rng, 1+r.Rng.Intn(3), true)
 	node, err := promParser.ParseExpr(e.text)
@@ -892,15 +931,25 @@ func c12Static(r *hx.Run) {
 	r.Op("lfeval\t"+string(b), got)
 	// the property on this fragment, observed: a static verdict means the query returns nothing (known: bool)
 	if s0.IsDead && len(ls) > 0 {
-		class := "dead-operand-contributes:static-comparison" + lfBool("static-comparison", e.text)
-		if strings.Contains(e.text, " unless on() ") && !strings.Contains(class, "constant-through-vector-matching") {
-			// AlwaysReturns (and known numbers) survive vector-vector operations: the recorded unless / join finding
+		// the tags of the recorded findings, computed from the expression's structure (exactly the hypotheses of the
+		// theorems: boolFree, valueKeeping / noVV, unlessSimple), not from its text as lfBool does
+		class := "dead-operand-contributes:static-comparison"
+		if strings.Contains(e.text, " bool ") {
+			class += ":bool-modifier-in-query"
+		}
+		if strings.Contains(e.text, "count(") {
+			class += ":value-changing-aggregation-in-query"
+		}
+		if !seUnlessSimple(e.json) && !strings.Contains(class, "constant-through-vector-matching") {
+			// AlwaysReturns (and known numbers) survive vector-vector operations: the recorded unless / join finding.
+			// Exactly the hypothesis of the theorem (unlessSimple): an `unless on()` whose right side is free of
+			// vector-vector operations is judged in full
 			class += ":constant-through-vector-matching"
 		}
 		if strings.Contains(e.text, "count(") && !strings.Contains(class, "value-changing-aggregation-in-query") {
 			class += ":value-changing-aggregation-in-query"
 		}
-		if (strings.Contains(e.text, "abs(") || strings.Contains(e.text, "m1")) && !strings.Contains(class, "constant-through-vector-matching") {
+		if (strings.Contains(e.text, "abs(") || strings.Contains(e.text, "m1")) && !seNoVV(e.json) && !strings.Contains(class, "constant-through-vector-matching") {
 			// a known number next to an unknown one survives a vector-vector operation (recorded finding; the model's
 			// static_stale_through_join_not_sound): only these expressions have unknown numbers
 			class += ":constant-through-vector-matching"
